@@ -42,6 +42,9 @@ pub const FN_NAMES: &[&str] = &[
     "e",
     "SF",
     "x y",
+    "2,init",
+    "12",
+    "0,0,x",
 ];
 const OTHERS: &[&str] = &[
     "LF:3",
